@@ -14,6 +14,8 @@ import time
 
 VERIF = os.path.dirname(os.path.dirname(os.path.abspath(__file__)))
 PY = "/venv/bin/python"
+# the harness's own clock: bound before any simulated clock is installed (SimClock patches the `time` module's attributes)
+REAL_MONOTONIC = time.monotonic
 
 
 def repo_root():
@@ -111,6 +113,71 @@ class SimStream(io.TextIOBase):
         s = "".join(self.chunks)
         self.chunks.clear()
         return s
+
+
+# ---------------------------------------------------------------------------
+# clock seam
+# ---------------------------------------------------------------------------
+class SimClock:
+    """Simulated wall and monotonic clocks for the process under test (the `time` module is the seam: the package
+    has no clock today, a change that adds one - TTL caches, idle sweeps, date-derived defaults - reads it through here).
+    Every read advances the clock by one microsecond (durations are non-zero and a pure function of the history);
+    `advance` is the injected fault: an idle period, or a wall-clock step (NTP correction, VM resume) that may go backwards
+    while the monotonic clock never does."""
+
+    NAMES = ("time", "time_ns", "monotonic", "monotonic_ns", "perf_counter", "perf_counter_ns", "process_time", "process_time_ns")
+
+    def __init__(self, wall0=1_700_000_000.0, mono0=5_000.0):
+        self.wall = float(wall0)
+        self.mono = float(mono0)
+        self.saved = None
+        self.reads = 0
+
+    def _tick(self):
+        self.reads += 1
+        self.wall += 1e-6
+        self.mono += 1e-6
+
+    def install(self):
+        if self.saved is not None:
+            return
+        self.saved = {n: getattr(time, n) for n in self.NAMES}
+
+        def wall():
+            self._tick()
+            return self.wall
+
+        def mono():
+            self._tick()
+            return self.mono
+
+        time.time = wall
+        time.time_ns = lambda: int(wall() * 1e9)
+        for n in ("monotonic", "perf_counter", "process_time"):
+            setattr(time, n, mono)
+            setattr(time, n + "_ns", lambda: int(mono() * 1e9))
+
+    def uninstall(self):
+        if self.saved is not None:
+            for n, f in self.saved.items():
+                setattr(time, n, f)
+            self.saved = None
+
+    def advance(self, dt, wall_step=0.0):
+        """An idle period of dt seconds on both clocks, plus a step of the wall clock alone."""
+        self.mono += max(0.0, float(dt))
+        self.wall += max(0.0, float(dt)) + float(wall_step)
+
+
+# what the PRNG picks idle periods from: around the usual TTL / sweep / rotation constants (seconds)
+IDLE_PERIODS = (0.5, 2.0, 11.0, 61.0, 301.0, 601.0, 1801.0, 3601.0, 7201.0, 43201.0, 86401.0, 7 * 86400.0 + 1, 31 * 86400.0 + 1, 400 * 86400.0)
+
+
+def gen_idle(rng):
+    op = {"op": "idle", "dt": rng.choice(IDLE_PERIODS) * rng.choice((1.0, 1.0, 1.0, 3.0))}
+    if rng.random() < 0.2:
+        op["wall_step"] = rng.choice((-86400.0, -3600.0, -1.5, 1.5, 3600.0, 86400.0))
+    return op
 
 
 # ---------------------------------------------------------------------------
@@ -281,10 +348,10 @@ def run_isolated(fn, args=(), timeout=600.0):
             os._exit(rc)
     os.close(w)
     chunks = []
-    t_end = time.monotonic() + timeout
+    t_end = REAL_MONOTONIC() + timeout
     try:
         while True:
-            left = t_end - time.monotonic()
+            left = t_end - REAL_MONOTONIC()
             if left <= 0:
                 os.kill(pid, signal.SIGKILL)
                 os.waitpid(pid, 0)
